@@ -266,7 +266,8 @@ impl rs_matter::transport::network::NetworkSend for &Tap<'_> {
             Some(crate::simnet::Verdict::Dup) => "2",
             _ => "p",
         };
-        if !self.on.get() {
+        if !self.on.get() || crate::simnet::node_of(&addr) == Some(2) {
+            // (traffic with the third party is not part of the exchange under observation)
             return r;
         }
         let e = match describe_dg(data, &self.keys.borrow(), self.node) {
@@ -288,7 +289,7 @@ impl rs_matter::transport::network::NetworkReceive for &Tap<'_> {
     async fn recv_from(&mut self, buffer: &mut [u8]) -> Result<(usize, rs_matter::transport::network::Address), rs_matter::error::Error> {
         let mut s = self.inner;
         let (n, a) = rs_matter::transport::network::NetworkReceive::recv_from(&mut s, buffer).await?;
-        if !self.on.get() {
+        if !self.on.get() || crate::simnet::node_of(&a) == Some(2) {
             return Ok((n, a));
         }
         let e = match describe_dg(&buffer[..n], &self.keys.borrow(), 1 - self.node) {
@@ -301,8 +302,25 @@ impl rs_matter::transport::network::NetworkReceive for &Tap<'_> {
     }
 }
 
+/// the adversary leaves the third party's datagrams alone
+struct Aside(Box<dyn crate::simnet::Policy>);
+impl crate::simnet::Policy for Aside {
+    fn decide(&mut self, from: usize, to: usize, bytes: &[u8], seq: u64) -> crate::simnet::Verdict {
+        if from == 2 || to == 2 {
+            crate::simnet::Verdict::Deliver
+        } else {
+            self.0.decide(from, to, bytes, seq)
+        }
+    }
+}
+
 /// `sys` cases: two real nodes on the simulated adversarial network. One op:
-///  `flow <seed> <drop pm> <dup pm> <delay pm> <max delay ms> <messages>`
+///  `flow <seed> <drop pm> <dup pm> <delay pm> <max delay ms> <messages> [<secure 0|1>] [rm=<ms>.<ms>…]`
+/// `rm=`: a third real node (node 2) has sessions of its own with the SENDER: at each of the given
+/// times (ms after the flow's start) it opens an unsecured session + exchange to node 1 and closes that
+/// session again with a `CloseSession` status report on the same exchange - node 1 removes a session
+/// that has nothing to do with the exchange under observation while its reliable send may be waiting
+/// for an acknowledgement.
 /// Node 1 opens an unsecured exchange to node 0 and sends `<messages>` reliable messages one after the
 /// other (payload byte = message number); node 0's application accepts the exchange, logs what it
 /// receives and acknowledges. Result: `base=<ms> res=<per message ok|ErrCode|hang> app=<received numbers in order>
@@ -328,15 +346,24 @@ fn run_sys(out: &mut Out, ops: &[String]) {
         embassy_time::MockDriver::get().reset();
         // `flow … <messages> 1`: on a PASE session established first over a perfect network
         let secure = w.get(6).copied().unwrap_or(0) != 0;
-        let adversary = || Box::new(RandomPolicy { rng: Rng::new(w[0]), drop_pm: w[1].min(1000), dup_pm: w[2].min(1000), delay_pm: w[3].min(1000), max_delay_ms: w[4].min(3000) });
-        let net = if secure { SimNet::new(2, Box::new(crate::simnet::Perfect)) } else { SimNet::new(2, adversary()) };
+        let removals: Vec<u64> = op
+            .split_whitespace()
+            .find_map(|t| t.strip_prefix("rm="))
+            .map(|l| l.split('.').filter_map(|t| t.parse().ok()).take(12).collect())
+            .unwrap_or_default();
+        let adversary = || Box::new(Aside(Box::new(RandomPolicy { rng: Rng::new(w[0]), drop_pm: w[1].min(1000), dup_pm: w[2].min(1000), delay_pm: w[3].min(1000), max_delay_ms: w[4].min(3000) })));
+        let net = if secure { SimNet::new(3, Box::new(crate::simnet::Perfect)) } else { SimNet::new(3, adversary()) };
         let keys: RefCell<Option<([u8; 16], [u8; 16])>> = RefCell::new(None);
         let on = std::cell::Cell::new(!secure);
         let device = Box::new(Matter::new(&TEST_DEV_DET, TEST_DEV_COMM, &TEST_DEV_ATT, 0));
         let controller = Box::new(Matter::new(&TEST_DEV_DET, TEST_DEV_COMM, &TEST_DEV_ATT, 0));
+        let other = Box::new(Matter::new(&TEST_DEV_DET, TEST_DEV_COMM, &TEST_DEV_ATT, 0));
         let crypto = test_only_crypto();
         let ds0 = net.socket(0);
         let cs0 = net.socket(1);
+        let os0 = net.socket(2);
+        let flow_start = std::cell::Cell::new(0u64);
+        let third_removed = std::cell::Cell::new(0u32);
         let events: RefCell<Vec<String>> = RefCell::new(Vec::new());
         let ds = Tap { inner: &ds0, net: &net, node: 0, ev: &events, keys: &keys, on: &on };
         let cs = Tap { inner: &cs0, net: &net, node: 1, ev: &events, keys: &keys, on: &on };
@@ -389,9 +416,37 @@ fn run_sys(out: &mut Out, ops: &[String]) {
             #[allow(unreachable_code)]
             Ok::<(), Error>(())
         };
+        // the sender's node also serves the third party's exchanges (and nothing else)
+        let sink = async {
+            loop {
+                if let Ok(mut ex) = Exchange::accept(&controller).await {
+                    // take the message and keep the exchange for a while without waiting on it: the
+                    // `session_removed` notification wakes one waiter only, and it is the reliable
+                    // send under observation that shall see it, not this exchange
+                    let _ = ex.recv().await;
+                    embassy_time::Timer::after(embassy_time::Duration::from_millis(40)).await;
+                }
+            }
+        };
+        let third_party = async {
+            for t in removals.iter() {
+                embassy_time::Timer::at(embassy_time::Instant::from_millis(flow_start.get() + *t)).await;
+                let Ok(mut ex) = Exchange::initiate_plaintext(&other, &crypto, addr_of(1)).await else { continue };
+                let _ = ex
+                    .send_with(|_, wb| {
+                        wb.append(&[0xc0])?;
+                        Ok(Some(MessageMeta::new(PROTO_ID_SECURE_CHANNEL, OpCode::PBKDFParamRequest as u8, false)))
+                    })
+                    .await;
+                let _ = ex.send_with(|_, wb| rs_matter::sc::sc_write(wb, rs_matter::sc::SCStatusCodes::CloseSession, &[])).await;
+                third_removed.set(third_removed.get() + 1);
+            }
+            core::future::pending::<()>().await
+        };
         let dev_run = device.run(&crypto, &ds, &ds, NoNetwork);
         let ctl_run = controller.run(&crypto, &cs, &cs, NoNetwork);
-        let mut transports = core::pin::pin!(select(dev_run, ctl_run));
+        let other_run = other.run(&crypto, &os0, &os0, NoNetwork);
+        let mut transports = core::pin::pin!(select(select(dev_run, ctl_run), other_run));
         let mut hs_failed = false;
         if secure {
             use rs_matter::respond::Responder;
@@ -430,7 +485,8 @@ fn run_sys(out: &mut Out, ops: &[String]) {
             out.op(op, "handshake-failed");
             continue;
         }
-        let mut nodes = core::pin::pin!(select(transports.as_mut(), receiver));
+        flow_start.set(now_ms());
+        let mut nodes = core::pin::pin!(select(transports.as_mut(), select(receiver, select(sink, third_party))));
         let mut sender = core::pin::pin!(sender);
         let finished = {
             let both = select(nodes.as_mut(), sender.as_mut());
@@ -466,9 +522,10 @@ fn run_sys(out: &mut Out, ops: &[String]) {
             }
         }
         let res = format!(
-            "base={} enc={} res={} app={} trace={} wire={}",
+            "base={} enc={} rmd={} res={} app={} trace={} wire={}",
             TEST_DEV_DET.sai.unwrap_or(300),
             secure as u8,
+            third_removed.get(),
             results.borrow().join(","),
             app.borrow().iter().map(|i| i.to_string()).collect::<Vec<_>>().join(","),
             events.borrow().join(","),
@@ -509,7 +566,22 @@ pub fn gen(a: &Args) -> String {
             3 => (0, cr.range(100, 500), cr.range(0, 300)),
             _ => (cr.range(0, 500), cr.range(0, 300), cr.range(0, 300)),
         };
-        let ops = vec![format!("flow {} {} {} {} {} {} {}", cr.below(1 << 32), drop, dup, delay, *cr.pick(&[50u64, 400, 800, 2500]), cr.range(1, 4), (id % 2 == 1) as u8)];
+        // every third flow: a third node's sessions with the sender are removed while the send is under way
+        // (single removals at arbitrary instants, or bursts of six within one back-off interval)
+        let (drop, rm) = if id % 3 == 2 {
+            let t0 = cr.range(5, 2500);
+            let times: Vec<String> = if cr.chance(1, 2) {
+                (0..cr.range(1, 4)).map(|_| cr.range(5, 4000).to_string()).collect()
+            } else {
+                let gap = cr.range(5, 45);
+                (0..cr.range(6, 8)).map(|k| (t0 + k * gap).to_string()).collect()
+            };
+            out.stat("sys_flows_with_third_party", 1);
+            (if cr.chance(2, 3) { cr.range(400, 1000) } else { drop }, format!(" rm={}", times.join(".")))
+        } else {
+            (drop, String::new())
+        };
+        let ops = vec![format!("flow {} {} {} {} {} {} {}{}", cr.below(1 << 32), drop, dup, delay, *cr.pick(&[50u64, 400, 800, 2500]), cr.range(1, 4), (id % 2 == 1) as u8, rm)];
         out.case(n_cases + id, "sys");
         run_sys(&mut out, &ops);
     }
